@@ -28,6 +28,7 @@ import json
 import os
 import random
 import shutil
+import time
 
 import vlib
 
@@ -161,7 +162,7 @@ def run(ctx, quick):
 
     # seeded random histories start right away (they do not depend on the model run)
     nshard = 4 if quick else 10
-    per, rlen = (3, 100) if quick else (24, 200)
+    per, rlen = (3, 100) if quick else (20, 200)
     rjobs = [["-out", ctx.path("od_rand_%d.ndjson" % i), "-random", str(per), "-len", str(rlen), "-first", str(i * per)] for i in range(nshard)]
     pool = concurrent.futures.ThreadPoolExecutor(max_workers=1)
     rfut = pool.submit(_shards, ctx, drv, rjobs, 3000)
@@ -232,17 +233,36 @@ def run(ctx, quick):
         if not st.get(k):
             raise vlib.CheckError("the driver never produced '%s' (dead driver)" % k)
 
-    # 3. trace validation
-    trace = ctx.path("offline.ndjson")
-    with open(trace, "w") as out:
-        for j in sjobs + rjobs:
-            with open(j[1]) as f:
-                shutil.copyfileobj(f, out)
-    nlines = sum(1 for _ in open(trace))
-    ok, info = vlib.trace_validate(ctx, "Trace_Offline.tla", "Trace_Offline.cfg", trace, timeout=3000)
+    # 3. trace validation: the shards are validated side by side (one TLC each), every world starts with its own Genesis line
+    files = [j[1] for j in sjobs + rjobs]
+    nlines = sum(sum(1 for _ in open(f)) for f in files)
+    groups = [[] for _ in range(4 if quick else 8)]
+    for i, f in enumerate(sorted(files, key=os.path.getsize, reverse=True)):
+        groups[i % len(groups)].append(f)
+    traces = []
+    for i, g in enumerate(x for x in groups if x):
+        t = ctx.path("offline_%d.ndjson" % i)
+        with open(t, "w") as out:
+            for fn in g:
+                with open(fn) as f:
+                    shutil.copyfileobj(f, out)
+        traces.append(t)
+
+    def validate(job):
+        i, t = job
+        time.sleep(0.3 * i)      # vlib.tlc names its scratch directory from a counter and the clock
+        return vlib.trace_validate(ctx, "Trace_Offline.tla", "Trace_Offline.cfg", t, timeout=3000)
+    with concurrent.futures.ThreadPoolExecutor(max_workers=len(traces)) as ex:
+        results = list(ex.map(validate, list(enumerate(traces))))
     gaps = []
-    if not ok:
-        gaps = _report(ctx, trace, info)
+    ok = True
+    broken_all = []
+    for t, (ok1, info) in zip(traces, results):
+        if not ok1:
+            ok = False
+            broken_all += [c for _, c in info.get("broken", [])]
+            gaps += _report(ctx, t, info)
+    trace = traces[0]
 
     # binding self-test: an identity that the recorded switch block turned on / off is put back
     def mutate(rows):
@@ -252,7 +272,7 @@ def run(ctx, quick):
                 row["st"]["online"] = on[1:] if on else [1]
                 return rows
         return None
-    only_gaps = ok or all(c.startswith("ChainPathGap:") or c == "ValidatorNoPanic" for _, c in info.get("broken", []))
+    only_gaps = ok or all(c.startswith("ChainPathGap:") or c == "ValidatorNoPanic" for c in broken_all)
     if only_gaps:
         selftest_offline(ctx, trace, mutate)
 
